@@ -90,8 +90,14 @@ func (s *Spec) mainPkgName() string { return s.PkgName }
 // carriesH tells whether a type has mk/h helpers.
 func (s *Spec) carriesH(t *Type) bool { return t.Kind != KRaw && t.Kind != KCtx }
 
+type forwarder struct {
+	id   int
+	text string
+}
+
 func (s *Spec) emitTypes(pkg string) string {
 	var b strings.Builder
+	var fwd []forwarder
 	for _, t := range s.Types {
 		tp := t.Pkg
 		if t.Base >= 0 {
@@ -114,8 +120,25 @@ func (s *Spec) emitTypes(pkg string) string {
 			// forwarding helpers to the ext package
 			ex := s.Expr(t.ID, "")
 			q := s.importName(tp)
-			fmt.Fprintf(&b, "func mk%d(h uint64) %s { return %s.Mk%d(h) }\n", t.ID, ex, q, t.ID)
-			fmt.Fprintf(&b, "func h%d(x %s) uint64 { return %s.H%d(x) }\n\n", t.ID, ex, q, t.ID)
+			fwd = append(fwd, forwarder{t.ID, fmt.Sprintf("func mk%d(h uint64) %s { return %s.Mk%d(h) }\nfunc h%d(x %s) uint64 { return %s.H%d(x) }\n\n", t.ID, ex, q, t.ID, t.ID, ex, q, t.ID)})
+		}
+	}
+	if len(fwd) > 0 {
+		// programs that are only compiled keep just the helpers something
+		// refers to: a helper nobody needs would make the main package import
+		// a sibling package that the declarations reach only indirectly, and
+		// an import in ANY file of the package hides import-bookkeeping faults
+		rest := ""
+		if !s.Dynamic {
+			rest = b.String() + s.emitProviders("")
+			for i := range s.Files {
+				rest += s.emitDecls(i)
+			}
+		}
+		for _, f := range fwd {
+			if s.Dynamic || regexp.MustCompile(fmt.Sprintf(`\b(mk|h)%d\(`, f.id)).MatchString(rest) {
+				b.WriteString(f.text)
+			}
 		}
 	}
 	if pkg == "" && s.ExtraDecl != "" {
@@ -421,8 +444,14 @@ func (s *Spec) itemsExpr(items []Item, indent string) string {
 		switch {
 		case it.Inline != nil:
 			fmt.Fprintf(&b, "%skessoku.Set(\n%s%s),\n", indent, s.itemsExpr(it.Inline, indent+"\t"), indent)
+		case it.Set != "" && s.Parens:
+			fmt.Fprintf(&b, "%s(%s),\n", indent, it.Set)
 		case it.Set != "":
 			fmt.Fprintf(&b, "%s%s,\n", indent, it.Set)
+		case it.Raw != "":
+			fmt.Fprintf(&b, "%s%s,\n", indent, it.Raw)
+		case s.Parens:
+			fmt.Fprintf(&b, "%s(%s),\n", indent, s.ProvExpr(s.Provs[it.Prov]))
 		default:
 			fmt.Fprintf(&b, "%s%s,\n", indent, s.ProvExpr(s.Provs[it.Prov]))
 		}
